@@ -106,7 +106,14 @@ RenameArgs(b, r, s, mode) ==
         THEN LET n == Count(r.subs, a)
                  k == IF mode = "occurrence" THEN ((OccIndex(r.args, j) - 1) % n) + 1 ELSE n
              IN SubIsoNames(b, r, s)[NthOcc(r.subs, a, k)]
+        \* a rate that reads its own tracked PRODUCT (reversible mass action, product inhibition): the statement does not say
+        \* which name of the labelled model stands for it -- "?B" means: any isotopomer of B or its total, but a name of the
+        \* labelled model (the base name B no longer exists there)
+        ELSE IF a \in Range(r.prods) /\ a \in Labelled(b) THEN "?" \o a
         ELSE a]
+\* cases whose rates the specification cannot evaluate (it is silent about the product's stand-in)
+HasWild(b) == \E j \in DOMAIN b.rxns : b.rxns[j].mapped /\
+                 \E i \in DOMAIN b.rxns[j].args : b.rxns[j].args[i] \in Range(b.rxns[j].prods) /\ b.rxns[j].args[i] \in Labelled(b)
 
 IsoRxn(b, r, s, mode) ==
     [name |-> r.name \o "__" \o BitStr(Full(b, r, s)),
